@@ -37,7 +37,7 @@ def tableOfRanges (ranges : List (Nat × Nat)) : Table :=
   Array.ofFn (n := 256) fun i => ranges.any fun r => decide (r.1 ≤ i.val) && decide (i.val ≤ r.2)
 
 /-- same loop but with the "clamp `hi` to 255, skip `lo > 255`" treatment used by `buildCharClassTable`
-    and `ExtractFirstBytes`. (Equal to `tableOfRanges`: indices are `< 256` anyway.) -/
+    (and, before its fix, by `ExtractFirstBytes`). (Equal to `tableOfRanges`: indices are `< 256` anyway.) -/
 def tableOfRangesClamped (ranges : List (Nat × Nat)) : Table :=
   tableOfRanges ((ranges.filter fun r => decide (r.1 ≤ 255)).map fun r => (r.1, min r.2 255))
 
@@ -479,7 +479,23 @@ def anchoredFind (input : Bytes) (info : AnchoredLiteralInfo) : Option (Nat × N
 def anchoredFindAt (input : Bytes) (info : AnchoredLiteralInfo) (at_ : Nat) : Option (Nat × Nat) :=
   if at_ > 0 then none else anchoredFind input info
 
-/-! ## §4 ExtractFirstBytes -/
+/-! ## §4 ExtractFirstBytes (nfa/firstbytes.go, after "the first-byte rejection filter must account for case folding
+    and multi-byte runes")
+
+  * `bytes [256]bool` is a `Table`; `count`, `complete` as in Go.  `complete` starts `true` and is only ever cleared
+    immediately before a `return false` (`*`, `?`, `{0,…}`), and every `false` propagates to the top (→ `nil`), so a
+    non-nil result always has `complete = true` (`firstBytes_complete` in Cx.Proofs.Fast).
+  * `unicode.SimpleFold` is not transliterated: the loop
+        `orbit := []rune{r}; for f := unicode.SimpleFold(r); f != r; f = unicode.SimpleFold(f) { orbit = append(orbit, f) }`
+    is the parameter `foldOrbit : Nat → List Nat` = the runes appended by that loop (the OTHER members of the
+    case-folding orbit of `r`, in `SimpleFold` order; `[]` for a rune without case variants).  Cx.DriverFast supplies it
+    from a table generated from Go's `unicode` package; the soundness theorem needs only that it covers the folding
+    the reference matcher implements (`OrbitSound`, Cx.Spec.Fast).
+  * `utf8.EncodeRune(buf[:], m); buf[0]` is `encodeFirst m` (`Utf8.encode` writes U+FFFD = EF BF BD for surrogates and
+    runes above U+10FFFF, as Go does).
+  * the class loop reads `re.Rune[i], re.Rune[i+1]` and would panic on an odd-length `Rune` (the parser never builds
+    one); `pairs` drops a dangling element.  Runes are `Nat`: a negative `lo` (impossible for parsed classes) is not
+    modelled, so `byte(r)` for `lo ≤ r ≤ min(hi, 0x7F)` is `r` itself. -/
 
 structure FirstByteSet where
   bytes : Table := Array.replicate 256 false
@@ -494,23 +510,28 @@ def isUseful (f : FirstByteSet) : Bool := f.complete && decide (f.count > 0) && 
 /-- `if !result.bytes[b] { result.bytes[b] = true; result.count++ }` -/
 def addNew (f : FirstByteSet) (b : Nat) : FirstByteSet :=
   if f.bytes.mem b then f else { f with bytes := f.bytes.setIfInBounds b true, count := f.count + 1 }
-
-/-- `result.bytes[b] = true; result.count++` (the literal case: counts even if already present) -/
-def addAlways (f : FirstByteSet) (b : Nat) : FirstByteSet :=
-  { f with bytes := f.bytes.setIfInBounds b true, count := f.count + 1 }
 end FirstByteSet
+
+/-- `utf8.EncodeRune(buf[:], m); buf[0]` -/
+def encodeFirst (m : Nat) : Nat := (Utf8.encode m).headD 0
+
+/-- the `orbit` slice of the `OpLiteral` case: `r`, then (for a `FoldCase` literal) what the `SimpleFold` loop appends -/
+def literalOrbit (foldOrbit : Nat → List Nat) (fold : Bool) (r : Nat) : List Nat :=
+  r :: (if fold then foldOrbit r else [])
 
 /-- `for r := lo; r <= hi; r++ { addNew(byte(r)) }`, fuel `hi + 1 - r` -/
 def addRange (f : FirstByteSet) : Nat → Nat → FirstByteSet
   | 0, _ => f
   | k+1, r => addRange (f.addNew r) k (r + 1)
 
+/-- the `OpCharClass` loop: a range reaching above U+007F contributes every byte `0x80..0xFF` and is cut at `0x7F` -/
 def addClassRanges (f : FirstByteSet) : List (Nat × Nat) → FirstByteSet
   | [] => f
   | (lo, hi) :: rest =>
-    if lo > 255 then addClassRanges f rest
-    else let hi := if hi > 255 then 255 else hi
-         addClassRanges (addRange f (hi + 1 - lo) lo) rest
+    if hi > 0x7F then
+      -- `for b := 0x80; b <= 0xFF; b++ { addNew(b) }; hi = 0x7F`
+      addClassRanges (addRange (addRange f 128 0x80) (0x7F + 1 - lo) lo) rest
+    else addClassRanges (addRange f (hi + 1 - lo) lo) rest
 
 /-- `for _, sub := range re.Sub { if !rec(sub, result) { return false } }; return true` -/
 def altLoop (rec : Re → FirstByteSet → Bool × FirstByteSet) : List Re → FirstByteSet → Bool × FirstByteSet
@@ -522,14 +543,16 @@ def altLoop (rec : Re → FirstByteSet → Bool × FirstByteSet) : List Re → F
 
 /-- `extractFirstBytesRecursive(re, result, depth)` with fuel `maxFirstBytesDepth + 1 - depth` (so fuel `0` is
     `depth > maxFirstBytesDepth`). Returns the Go `bool` and the mutated `*result`. -/
-def extractFirstBytesRec : Nat → Re → FirstByteSet → Bool × FirstByteSet
+def extractFirstBytesRec (foldOrbit : Nat → List Nat) : Nat → Re → FirstByteSet → Bool × FirstByteSet
   | 0, _, res => (false, res)
   | fuel+1, re, res =>
     match re.op with
     | .literal =>
       match re.rune with
       | [] => (false, res)
-      | r :: _ => if r > 255 then (false, res) else (true, res.addAlways r)
+      | r :: _ =>
+        -- `for _, m := range orbit { EncodeRune(buf, m); addNew(buf[0]) }`
+        (true, ((literalOrbit foldOrbit re.foldCase r).map encodeFirst).foldl FirstByteSet.addNew res)
     | .charClass =>
       let res := addClassRanges res (pairs re.rune)
       (decide (res.count > 0), res)
@@ -538,30 +561,30 @@ def extractFirstBytesRec : Nat → Re → FirstByteSet → Bool × FirstByteSet
     | .beginLine | .beginText | .endLine | .endText => (true, res)
     | .capture =>
       match re.sub with
-      | [x] => extractFirstBytesRec fuel x res
+      | [x] => extractFirstBytesRec foldOrbit fuel x res
       | _ => (false, res)
     | .concat =>
       -- first sub that is not a begin anchor
       match re.sub.find? (fun s => !(decide (s.op = .beginLine) || decide (s.op = .beginText))) with
-      | some x => extractFirstBytesRec fuel x res
+      | some x => extractFirstBytesRec foldOrbit fuel x res
       | none => (false, res)
     | .alternate =>
-      altLoop (extractFirstBytesRec fuel) re.sub res
+      altLoop (extractFirstBytesRec foldOrbit fuel) re.sub res
     | .star | .quest => (false, { res with complete := false })
     | .plus =>
       match re.sub with
-      | [x] => extractFirstBytesRec fuel x res
+      | [x] => extractFirstBytesRec foldOrbit fuel x res
       | _ => (false, res)
     | .repeat_ =>
       if re.min = 0 then (false, { res with complete := false }) else
       match re.sub with
-      | [x] => extractFirstBytesRec fuel x res
+      | [x] => extractFirstBytesRec foldOrbit fuel x res
       | _ => (false, res)
     | _ => (false, res)
 
 /-- `ExtractFirstBytes` (`none` = `nil`) -/
-def extractFirstBytes (re : Re) : Option FirstByteSet :=
-  match extractFirstBytesRec 21 re {} with
+def extractFirstBytes (foldOrbit : Nat → List Nat) (re : Re) : Option FirstByteSet :=
+  match extractFirstBytesRec foldOrbit 21 re {} with
   | (true, res) => some res
   | (false, _) => none
 
